@@ -644,7 +644,7 @@ def parse_file(path):
     return P(tokenize(src), os.path.basename(path)).items()
 
 # ----------------------------------------------------------------------------- emitter
-LEAN_RESERVED = {"end","from","at","show","open","then","do","have","fun","by","in","instance","local","macro","syntax",
+LEAN_RESERVED = {"meta","public","module","nomatch","nofun","omit","include","attribute","initialize","end","from","at","show","open","then","do","have","fun","by","in","instance","local","macro","syntax",
                  "theorem","def","where","with","obtain","exists","namespace","section","variable","prefix","infix",
                  "notation","abbrev","structure","class","inductive","deriving","import","export","private","protected",
                  "partial","noncomputable","mutual","calc","suffices","using","universe","example","axiom","opaque","type","Type","Prop","Sort"}
@@ -684,6 +684,7 @@ class Emit:
             if not t[1]: return "Unit"
             return "(" + " × ".join(self.ty(x) for x in t[1]) + ")"
         _, name, args = t
+        if name == "_": return "_"
         if name in self.typemap: return self.typemap[name]
         if name in INT_TYPES:
             if self.ints == "nat": return "Nat" if name[0] == "u" else "Int"
@@ -941,11 +942,10 @@ class Emit:
             path = e[1][1]
             lf = self.fn_ref(path)
             if lf: return lf[0] in self.fns_using_ext
-            name = "_".join(path)
-            x = self.externs.get(name, self.externs.get(path[-1]))
+            x = next((self.externs["_".join(path[-k:])] for k in range(len(path), 0, -1) if "_".join(path[-k:]) in self.externs), None)
             return isinstance(x, dict) and x.get("eff", False)
         if e[0] == "mcall":
-            if e[2] in self.ext_methods: return True
+            if e[2] in self.ext_methods or f"{e[2]}/{len(e[3])}" in self.ext_methods: return True
             for key, (ln, it) in self.local_fns.items():
                 if it["name"] == e[2] and it["owner"] and ln in self.fns_using_ext and len(it["params"]) == len(e[3]): return True
         return False
@@ -978,9 +978,8 @@ class Emit:
                 if pre: self.cur_uses_ext = True
                 if it["self"]: raise Unsupported(f"UFCS call of method {ln}")
                 return ("(" + " ".join([ln] + pre + a) + ")" if (pre or a) else ln, bool(pre) and self.effects, self.is_result(it["ret"]))
-            name = "_".join(path)
-            if name in self.externs or path[-1] in self.externs:
-                nm = name if name in self.externs else path[-1]
+            nm = next(("_".join(path[-k:]) for k in range(len(path), 0, -1) if "_".join(path[-k:]) in self.externs), None)
+            if nm is not None:
                 self.cur_uses_ext = True
                 x = self.externs[nm]
                 eff = isinstance(x, dict) and x.get("eff", False); res = isinstance(x, dict) and x.get("result", False)
@@ -996,8 +995,8 @@ class Emit:
     def _mcall(self, e):
         recv, m, args = e[1], e[2], e[3]
         if (m in ERASED_METHODS and not args) or m in ("map_err", "with_context", "context"): return (self.ex(recv), False, False)
-        if m in self.ext_methods:
-            em = self.ext_methods[m]; self.cur_uses_ext = True
+        if f"{m}/{len(args)}" in self.ext_methods or m in self.ext_methods:
+            em = self.ext_methods.get(f"{m}/{len(args)}", self.ext_methods.get(m)); self.cur_uses_ext = True
             return ("(" + " ".join([f"ext.{em['name']}", self.atom(recv)] + [self.atom(x) for x in args]) + ")", True, em.get("result", False))
         # method of a type translated in this unit (non-mutating)
         for exact in (True, False):
@@ -1053,6 +1052,10 @@ class Emit:
             self.cur_uses_ext = True
             return f"(ext.{self.unit['macro_externs'][name]} ())"
         raise Unsupported(f"macro {name}!")
+    def pat_covers(self, q, p):
+        """q takes every value p takes, and p binds no variable: same constructor, p's arguments all `_`, q's all `_`/bindings"""
+        return (p[0] == "pctor" and q[0] == "pctor" and p[1] == q[1] and p[2] is not None and q[2] is not None and len(p[2]) == len(q[2])
+                and all(a[0] == "wild" for a in p[2]) and all(a[0] in ("wild", "bind") for a in q[2]))
     def desugar_guards(self, e):
         """`P if g => A` followed later by an arm `Q => B` that takes everything P takes (the same pattern, or a catch-all):
         `P => if g { A } else { B }` — the fall-through Rust performs.  Other shapes are not supported."""
@@ -1064,7 +1067,7 @@ class Emit:
                 nxt = None
                 for k in range(i + 1, len(arms)):
                     q, g2, b2 = arms[k]
-                    if g2 is None and (q == p or q[0] in ("wild", "bind")):
+                    if g2 is None and (q == p or q[0] in ("wild", "bind") or self.pat_covers(q, p)):
                         nxt = k; break
                     if g2 is None and q[0] == "or": continue
                 if nxt is None: raise Unsupported("match guard without a later arm that covers the same values")
@@ -1072,8 +1075,11 @@ class Emit:
                 if q[0] == "bind": raise Unsupported("match guard falling through to a binding pattern")
                 bb = b if b[0] == "block" else ("block", [], b)
                 eb = b2 if b2[0] == "block" else ("block", [], b2)
-                arms[i] = (p, None, ("if", g, bb, eb))
-                if q == p: del arms[nxt]
+                if q != p and self.pat_covers(q, p):
+                    arms[i] = (q, None, ("if", g, bb, eb)); del arms[nxt]      # p binds nothing: q's bindings are unused by g and A
+                else:
+                    arms[i] = (p, None, ("if", g, bb, eb))
+                    if q == p: del arms[nxt]
                 # any arm strictly between i and nxt would be skipped by the fall-through: refuse
                 if nxt != i + 1: raise Unsupported("match guard with arms between it and its fall-through arm")
             i += 1
@@ -1254,6 +1260,7 @@ class Emit:
         if k == "loop": raise Unsupported("loop")
         if k == "mcall":
             recv, m, args = e[1], e[2], e[3]
+            if m in self.unit.get("skip_method_stmts", []): return []
             if recv[0] == "path" and len(recv[1]) == 1:
                 x = lname(recv[1][0])
                 if m == "push" and len(args) == 1: return [ind + f"{x} := {x} ++ [{self.ex(args[0])}]"]
